@@ -124,6 +124,14 @@ def _nulls(run, P):
                    construct=f"{clsname}: rewritten by the pre-simplification pass",
                    why="never reaches the post pass")
             continue
+        if h is None and pre is None:
+            PC = P.cls(f"{MOD}.ASTPreSimplifyMapper")
+            if "__call__" in PC.methods and any(isinstance(x, (ast.While, ast.For))
+                                                for x in ast.walk(PC.methods["__call__"].node)):
+                # the pre pass walks the tree by itself: whether it still rewrites this node
+                # class away is not read by this clause
+                raise AnalysisError(f"{clsname}: no handler in the post pass, and the pre pass "
+                                    f"re-implements its traversal; not decided")
         ok = h is not None
         tested = set()
         if ok:
@@ -146,6 +154,25 @@ def _nulls(run, P):
                                 if isinstance(lp, ast.For) and isinstance(lp.iter, ast.Attribute) \
                                         and lp.iter.attr == sl and dotted(lp.target) == a0.id:
                                     locs |= {t.id for t in s_.targets if isinstance(t, ast.Name)}
+                # [c for c in map(self.rec, expr.<slot>) if not isinstance(c, NullASTNode)]
+                for comp in ast.walk(h.node):
+                    if isinstance(comp, (ast.ListComp, ast.GeneratorExp)) and len(comp.generators) == 1:
+                        g_ = comp.generators[0]
+                        it_ = g_.iter
+                        over_rec = (isinstance(it_, ast.Call) and dotted(it_.func) == "map" and len(it_.args) == 2
+                                    and dotted(it_.args[0]) == "self.rec"
+                                    and isinstance(it_.args[1], ast.Attribute) and it_.args[1].attr == sl) or (
+                            isinstance(it_, (ast.GeneratorExp, ast.ListComp))
+                            and isinstance(it_.elt, ast.Call) and dotted(it_.elt.func) == "self.rec"
+                            and isinstance(it_.generators[0].iter, ast.Attribute)
+                            and it_.generators[0].iter.attr == sl)
+                        if over_rec and isinstance(g_.target, ast.Name) and any(
+                                isinstance(t_, ast.UnaryOp) and isinstance(t_.op, ast.Not)
+                                and isinstance(t_.operand, ast.Call) and dotted(t_.operand.func) == "isinstance"
+                                and dotted(t_.operand.args[0]) == g_.target.id
+                                and "NullASTNode" in ast.unparse(t_.operand.args[1]) for t_ in g_.ifs):
+                            locs.add(g_.target.id)
+                            tested.add(g_.target.id)
                 ok = ok and bool(locs & tested)
         run.ob("C05.nulls", h if h is not None else PM, h.node if h is not None else PM.node, ok,
                construct=f"{clsname}: post pass tests child slot(s) {node_slots} for NullASTNode",
